@@ -114,7 +114,21 @@ class ProgAbort(BaseException):
         self.tag = tag
 
 
+def _twin_of_progerr():
+    class ProgErr(Exception):       # noqa: F811 - another class of the same name, on purpose
+        def __init__(self, tag):
+            super().__init__(tag)
+            self.tag = tag
+    return ProgErr
+
+
+#: a different exception class that carries the same `__name__` (and `__qualname__` tail) as
+#: ProgErr - like csv.Error / shutil.Error / binascii.Error
+ProgErrTwin = _twin_of_progerr()
+
+
 EXC_TYPES = {
+    'twin': ProgErrTwin,
     'abort': ProgAbort,
     'err': ProgErr, 'lookup': ProgLookup, 'key': ProgKey, 'index': ProgIndex,
     'assert': ProgAssert, 'exit': ProgExit, 'kbd': ProgKbd, 'eq': ProgEq, 'falsy': ProgFalsy,
@@ -1047,6 +1061,14 @@ def scope_exit_monitor(env, ctx, key, scope, body_exc, outer_exc):
                                                 describe(outer_exc)))
                 else:
                     got = list(outer_exc.children)
+                    listed = type(outer_exc).specialisations
+                    if listed is not None and set(listed) != {type(child) for child in got}:
+                        sess.violation('c05:concurrent-content',
+                                       'block %s: the Concurrent is of type %r but carries '
+                                       'children of types %s' % (
+                                           key, type(outer_exc), sorted(
+                                               '%s.%s' % (type(c).__module__, type(c).__qualname__)
+                                               for c in got)))
                     if len(got) != len(content) or any(
                             a is not b for a, b in zip(got, content)):
                         sess.violation('c05:concurrent-content',
